@@ -70,8 +70,27 @@ def crossdb_schedules():
     return S
 
 
+def retyped_schedules():
+    """The key a client waits on receives an element and, within the same indivisible step or the same event-loop pass, is
+    emptied and becomes a value of another type: the wake-up finds a key that is not a list.  The waiter keeps waiting (and the
+    server keeps running); it is served once the key is a list with an element again."""
+    S = []
+    tail = [('sync',), ('pump', 1, 300), ('call', 2, B('TYPE', 'wk')), ('call', 2, B('DEL', 'wk')), ('call', 2, B('RPUSH', 'wk', 'later')), ('sync',), ('pump', 1, 600),
+            ('call', 2, B('LLEN', 'wk')), ('call', 2, B('PING'))]
+    for pop in ('BLPOP', 'BRPOP'):
+        head = [('open', 1), ('open', 2), ('send', 1, B(pop, 'wk', 0)), ('sync',)]
+        S.append(('retyped-inside-exec-' + pop, head + [('send', 2, B('MULTI'), B('LPUSH', 'wk', 'a'), B('DEL', 'wk'), B('SET', 'wk', 'str'), B('EXEC')), ('pump', 2, 600)] + tail))
+        S.append(('retyped-in-one-pipeline-' + pop, head + [('send', 2, B('LPUSH', 'wk', 'a'), B('LPOP', 'wk'), B('SADD', 'wk', 'm')), ('pump', 2, 600)] + tail))
+        S.append(('retyped-by-rename-' + pop, head + [('call', 2, B('HSET', 'h', 'f', 'v')), ('send', 2, B('MULTI'), B('RPUSH', 'wk', 'a'), B('RENAME', 'h', 'wk'), B('EXEC')), ('pump', 2, 600)] + tail))
+    import luadsl as L
+    prog = [L.call([L.arg_lit(b'RPUSH'), L.arg_key(1), L.arg_lit(b'x')]), L.call([L.arg_lit(b'DEL'), L.arg_key(1)]),
+            L.call([L.arg_lit(b'ZADD'), L.arg_key(1), L.arg_lit(b'1'), L.arg_lit(b'm')], ret=1)]
+    S.append(('retyped-inside-script', [('open', 1), ('open', 2), ('send', 1, B('BLPOP', 'wk', 0)), ('sync',), ('eval', 2, prog, [b'wk'], [])] + tail))
+    return S
+
+
 def directed():
-    S = txn_schedules() + crossdb_schedules()
+    S = txn_schedules() + crossdb_schedules() + retyped_schedules()
     S.append(('basic', [('open', 1), ('open', 2), ('send', 1, B('BLPOP', 'q', 0)), ('sync',), ('call', 2, B('RPUSH', 'q', 'a')), ('sync',), ('pump', 1, 500),
                         ('call', 2, B('LRANGE', 'q', 0, -1))]))
     S.append(('multikey-leftover', [('open', 1), ('open', 2), ('send', 1, B('BLPOP', 'a', 'b', 0)), ('sync',), ('call', 2, B('RPUSH', 'a', 'x')), ('sync',),
@@ -257,8 +276,13 @@ def run_schedule(ctx, srv, name, steps, tr):
                 break
     except (OSError, ServerDied):
         pass
-    if srv.alive():
-        srv.ctl.cmd('GATE off')
+    ok = srv.alive()
+    if ok:
+        try:
+            srv.ctl.cmd('GATE off')
+        except OSError:         # the process ended between the two lines
+            ok = False
+    if ok:
         run.finish()
     else:
         run.merge([], None)
